@@ -5,9 +5,13 @@ HARNESS_FLAGS = ("-DC14_WRAP -Wl,--wrap=jpeg_get_small -Wl,--wrap=jpeg_free_smal
                  "-Wl,--wrap=jpeg_mem_available -Wl,--wrap=malloc -Wl,--wrap=free")
 RULE = ("the executor is linked with --wrap for jpeg_get_small/large, jpeg_free_small/large, jpeg_mem_available, malloc and free, so every "
         "allocation the library makes during an API call is counted, can be made to fail, and is tracked until it is freed.  afail: a "
-        "catalogue of 16 scenarios (tj3Init, tj3Compress8/12/16 lossy, lossless, progressive, arithmetic, optimised, with restarts; "
+        "catalogue of 25 scenarios (tj3Init, tj3Compress8/12/16 lossy, lossless, progressive, arithmetic, optimised, with restarts; "
         "tj3DecompressHeader + tj3Decompress8/12/16, tj3DecompressToYUV8, scaled with merged upsampling; tj3Transform plain, from "
-        "progressive, to progressive, optimised; tj3Destroy) x the k-th allocation failing for every k up to beyond the number of "
+        "progressive, to progressive, optimised; tj3Destroy; and, on images whose JPEG outgrows the initial destination buffer so that it "
+        "is re-allocated while armed: tj3EncodeYUV8 + tj3CompressFromYUV8, tj3EncodeYUVPlanes8 + tj3CompressFromYUVPlanes8, tj3Compress8 "
+        "into a re-used buffer, tj3DecompressToYUVPlanes8 + tj3DecodeYUVPlanes8, scaled tj3DecompressToYUV8 + tj3DecodeYUV8, "
+        "tj3SetICCProfile + tj3GetICCProfile, tj3Transform with two transforms, tj3SaveImage8 + tj3LoadImage8, the legacy "
+        "tjCompress2 / tjDecompress2 / tjDecompressToYUV2 / tjCompressFromYUV) x the k-th allocation failing for every k up to beyond the number of "
         "allocations (pairs k1,k2 in the thorough tier): the call must return (error or success), ASan/UBSan must stay silent, and after "
         "the handles are destroyed and returned buffers freed no block obtained during the calls may remain.  limit: TJPARAM_MAXPIXELS "
         "at, below and above the image area; TJPARAM_SCANLIMIT around the 10 scans of a progressive image for decompression and "
@@ -20,6 +24,7 @@ ASSUMPTIONS = ["the limits are those TurboJPEG exposes (TJPARAM_MAXMEMORY in meg
                "non-virtual allocations are allowed 1 MB on top of the configured maximum"]
 
 NSCEN = 16
+NSCEN2 = 25          # scenarios 16..24: the remaining entry points on images whose JPEG outgrows the initial 4 KB destination buffer
 
 
 def classify(op, R):
@@ -41,6 +46,14 @@ def gen_ops(rng, tier):
         if big:
             for _ in range(150):
                 k1 = rng.randint(1, 60); k2 = k1 + rng.randint(1, 30)
+                ops.append("afail %d %d %d %d" % (scen, rng.randrange(1 << 20), k1, k2))
+    for scen in range(NSCEN, NSCEN2):
+        seed = rng.randrange(1 << 20)
+        for k in range(0, 135):
+            ops.append("afail %d %d %d 0" % (scen, seed, k))
+        if big:
+            for _ in range(150):
+                k1 = rng.randint(1, 110); k2 = k1 + rng.randint(1, 30)
                 ops.append("afail %d %d %d %d" % (scen, rng.randrange(1 << 20), k1, k2))
     for (a, b) in ((40, 30), (1, 1), (33, 17), (640, 480)):
         for delta in (0, -1, 1, -a * b + 1, 1000):
